@@ -144,6 +144,10 @@ GARBAGE = ["   ", "not json", "{", "[1,2]", "null", "{}", '{"action_type": "Acti
            '{"action_type": "scannetwork", "parameters": {}}', " \n", "\t"]
 
 
+# roles that are not allowed: unknown names and values that are not even text (a JSON list, object, number, null, boolean)
+BAD_ROLES = ["Hacker", "", "attacker", ["Attacker"], {"role": "Attacker"}, 7, None, True, [], 1.5]
+
+
 class Gen:
     """Drives one random session."""
 
@@ -207,7 +211,8 @@ class Gen:
             elif k == 2:
                 S.send(a, json.dumps({"action_type": "ActionType.JoinGame", "parameters": {}}), {"kind": "join", "info": False})
             elif k == 3:
-                S.send(a, nsgenv.join("x", "Hacker"), {"kind": "join", "name": "x", "role": "Hacker"})
+                role = rng.choice(BAD_ROLES)
+                S.send(a, nsgenv.join("x", role), {"kind": "join", "name": "x", "role": role})
             elif k == 4:
                 nm = rng.choice(["dup", "x", "a"])
                 role = rng.choice(ROLES)
@@ -285,9 +290,70 @@ def directed_config(rng, required, max_steps, goal_at_once=False, defender=False
 def directed(rng, k):
     """Run the k-th directed scenario; returns (Session, cfg, draw)."""
     kinds = ["eof", "readerr", "quit", "undecodable"]
-    variant = (k // 11) % 2
-    k = k % 11
-    if k == 10:
+    variant = (k // 13) % 2
+    k = k % 13
+    if k == 12:
+        # a finished and rewarded agent leaves; a new connection takes its place and plays to its end without a reset in between
+        # (in the address-reuse twin of this session the newcomer comes from the departed agent's address)
+        cfg, draw = directed_config(rng, 2, 2)
+        S = CR.Session(cfg, draw=draw)
+        a, b, c, e = ("10.2.12.1", 1), ("10.2.12.2", 2), ("10.2.12.3", 3), ("10.2.12.4", 4)
+        S.connect(a); S.connect(b); S.settle()
+        _join(S, a, "a", "Attacker"); _join(S, b, "b", "Attacker"); S.settle()
+        for _ in range(2):
+            _scan(S, a); S.settle(); _scan(S, b); S.settle()
+        _leave(S, a, "quit" if variant == 0 else rng.choice(kinds)); S.settle()
+        S.connect(c); S.settle()
+        _join(S, c, "c", "Attacker"); S.settle()
+        _scan(S, c); S.settle(); _scan(S, c); S.settle()                 # the newcomer's final observation carries its bonus
+        _scan(S, c); S.settle()                                          # refused
+        _reset(S, b, False); _reset(S, c, True); S.settle()
+        _scan(S, c); S.settle()
+        _leave(S, b, rng.choice(kinds)); S.settle()
+        S.connect(e); S.settle()
+        _join(S, e, "e", rng.choice(["Attacker", "Defender"])); S.settle()
+        _scan(S, c); S.settle()
+    elif k == 11:
+        # dynamic addresses: several consecutive collective resets (each one re-labels the network), actions taken from the
+        # current view, a departure and a join after a re-labelling
+        cfg, draw = directed_config(rng, 1 + variant, 3)
+        cfg["env"]["use_dynamic_addresses"] = True
+        A = cfg["coordinator"]["agents"]["Attacker"]
+        g0 = copy.deepcopy(nsgenv.EMPTY_PART)
+        g0["known_hosts"] = ["1.1.1.1"]                                  # unreachable under every labelling
+        A["goal"] = dict(g0, description="goal", is_any_part_of_goal_random=False)
+        S = CR.Session(cfg, draw=draw)
+        ags = [("10.2.11.%d" % (i + 1), i + 1) for i in range(1 + variant)]
+        for x in ags:
+            S.connect(x)
+        S.settle()
+        for i, x in enumerate(ags):
+            _join(S, x, "d%d" % i, "Attacker")
+        S.settle()
+
+        def view_scan(x):
+            st = S.g._agent_states.get(x)
+            if st is None:
+                return
+            src = sorted(str(h) for h in st.controlled_hosts)[0]
+            nets = sorted((n.ip, n.mask) for n in st.known_networks)
+            n = nets[rng.randrange(len(nets))]
+            t, d = game_msg("ScanNetwork", source_host=ip(src), target_network={"ip": n[0], "mask": n[1]})
+            S.send(x, t, d)
+        for episode in range(4):
+            for _ in range(rng.choice([1, 3])):
+                for x in ags:
+                    view_scan(x); S.settle()
+            for i, x in enumerate(ags):
+                _reset(S, x, (episode + i) % 2 == 0)
+            S.settle()
+        view_scan(ags[0]); S.settle()
+        _leave(S, ags[0], rng.choice(kinds)); S.settle()
+        n = ("10.2.11.9", 9)
+        S.connect(n); S.settle()
+        _join(S, n, "late", "Attacker"); S.settle()
+        view_scan(n); S.settle()
+    elif k == 10:
         # an agent changes the world and leaves; the idle rest of the game resets; a newcomer joins: the reset must give the
         # pristine world whoever acted before (the remaining agents have not taken a single step)
         cfg, draw = directed_config(rng, 2, 6)
@@ -359,6 +425,8 @@ def directed(rng, k):
         S.send(a, t, d); S.settle()                                   # game action before joining
         _reset(S, a, False); S.settle()                               # reset before joining
         S.send(a, nsgenv.join("x", "Hacker"), {"kind": "join", "name": "x", "role": "Hacker"}); S.settle()
+        for role in rng.sample(BAD_ROLES[3:], 3):                     # roles that are not text
+            S.send(a, nsgenv.join("x", role), {"kind": "join", "name": "x", "role": role}); S.settle()
         _join(S, a, "a", "Attacker"); S.settle()                      # held at the start barrier
         _join(S, b, "b", rng.choice(["Attacker", "Defender"])); S.settle()
         _join(S, a, "a2", "Attacker"); S.settle()                     # second join of a joined agent
